@@ -5,16 +5,26 @@ C19 driver: one self-contained case per line.
   merge   <gen> <A> <B>                  => <res> <err>
   merge3  <gen> <A> <B> <C>              => <(AB)C> <errAB> <err(AB)C> <A(BC)> <errBC> <errA(BC)>
   env     <gen> x<OTEL_RESOURCE_ATTRIBUTES> x<OTEL_SERVICE_NAME> => <res> <err> <otel.Handle calls>
+  envrt   <gen> <hexkey=hexvalue;…|-> x<the pairs rendered as k=%XX…,k=…> => <res> <err> <otel.Handle calls>
   detect  <gen> x<initial schema> <det>… => <res> <err>
   requal  <gen> <A> <B>                  => <A.Equal(B)> <B's Equivalent() found in map{A}>
+  racc    <gen> <A> <B>                  => <A.Attributes()> x<A.SchemaURL()> <A.Len()> <steps of A.Iter()> x<A.String()> x<A.Encoded(DefaultEncoder())> <A.Equal(B)> <B.Equal(A)>
+          (A, B also `empty` = resource.Empty(); values restricted to STRING/BOOL/INT64 so that Value.Emit is modelled)
+  default <gen> x<ATTRS at 1st call> x<SVC at 1st call> x<ATTRS at 2nd call> x<SVC at 2nd call> <det: defaultServiceNameDetector> <det: telemetrySDK>
+                                         => <Default() #1> <otel.Handle calls #1> <Default() #2> <otel.Handle calls #2> <same pointer>
   new     <gen> x<OTEL_RESOURCE_ATTRIBUTES> x<OTEL_SERVICE_NAME> <opt>… => <res> <err>     (resource.New(ctx, opts…))
           opt = sch:x<schema> | attrs:<kvs> | env | tsdk:<resource the telemetrySDK detector returns> |
+                bi:<Host|HostID|TelemetrySDK|OS|OSType|…|Process|ProcessPID|…|Container|ContainerID>:<builtin detector>/<det>;… (the
+                built-in option of that name; what each of its detectors returns in this process is an input) |
                 dets:<d>;<d>;… with d = nild | <P|S|F><id>/<det> (P pointer, S comparable struct, F
                 non-comparable detector; the same kind+id is the SAME detector value given again)
 
 resource = nil | <kvs>@x<schemahex> (inputs: the attribute list handed to NewWithAttributes; outputs:
 Attributes() and SchemaURL()); kvs as in the C05 driver; err = ok | err:<p?><c?> (p: errors.Is
-ErrPartialResource, c: errors.Is ErrSchemaURLConflict); det = nild | <ok|p|f|c|pc>:<resource>.
+ErrPartialResource, c: errors.Is ErrSchemaURLConflict); det = nild | <ok|p|f|c|pc>:<resource> |
+sd:x<schema>:x<key>:<x<value>|err> (StringDetector(schema, key, f) with f returning the value / an error).
+An observed part `UNSTABLE:…` (an operand or result read differently after the argument table was
+overwritten and later calls were made) is unparsable on purpose: the runner reports it.
 -/
 import Otel.C05.Drv
 import Otel.C19.Spec
@@ -65,6 +75,60 @@ def parseDet (s : String) : Option (Option (Option Err × Option (List KV × Byt
       pure (some (e, ra))
     | _ => none
 
+def parseBDet : String → Option BDet
+  | "host" => some .host | "hostID" => some .hostID | "telemetrySDK" => some .telemetrySDK
+  | "osType" => some .osType | "osDescription" => some .osDescription
+  | "processPID" => some .processPID | "processExecutableName" => some .processExecutableName
+  | "processExecutablePath" => some .processExecutablePath | "processCommandArgs" => some .processCommandArgs
+  | "processOwner" => some .processOwner | "processRuntimeName" => some .processRuntimeName
+  | "processRuntimeVersion" => some .processRuntimeVersion
+  | "processRuntimeDescription" => some .processRuntimeDescription
+  | "containerID" => some .containerID | "defaultServiceName" => some .defaultServiceName
+  | _ => none
+
+def parseBOpt : String → Option BOpt
+  | "Host" => some .host | "HostID" => some .hostID | "TelemetrySDK" => some .telemetrySDK
+  | "OS" => some .os | "OSType" => some .osType | "OSDescription" => some .osDescription
+  | "Process" => some .process | "ProcessPID" => some .processPID
+  | "ProcessExecutableName" => some .processExecutableName | "ProcessExecutablePath" => some .processExecutablePath
+  | "ProcessCommandArgs" => some .processCommandArgs | "ProcessOwner" => some .processOwner
+  | "ProcessRuntimeName" => some .processRuntimeName | "ProcessRuntimeVersion" => some .processRuntimeVersion
+  | "ProcessRuntimeDescription" => some .processRuntimeDescription
+  | "Container" => some .container | "ContainerID" => some .containerID
+  | _ => none
+
+/-- a detector token ↦ (what the model says it returns, what the reference says): scripted
+detectors, or `sd:x<schema>:x<key>:<x<value>|err>` = `StringDetector(schema, key, f)` -/
+def parseDet2 (s : String) : Option (Option DetOut × Option DetOut) :=
+  match s.splitOn ":" with
+  | ["sd", sc, k, f] => do
+    let sch ← parseHex sc
+    let key ← parseHex k
+    let fv ← (if f = "err" then some none else (parseHex f).map some)
+    pure (some (stringDetector sch key fv), some (Spec.stringDetRef sch key fv))
+  | _ => (parseDet s).map (fun d => (d.map (fun p => ⟨mkModel p.2, p.1⟩), d.map (fun p => ⟨mkRef p.2, p.1⟩)))
+
+/-- `bi:<Option>:<det>/<what it returned>;…` ↦ the option and the built-in detectors' outputs (model, reference).
+The detectors listed must be exactly the ones the model says the option stands for. -/
+def parseBuiltin (s : String) : Option (BOpt × List (BDet × DetOut × DetOut)) :=
+  match s.splitOn ":" with
+  | "bi" :: name :: rest => do
+    let o ← parseBOpt name
+    let body := ":".intercalate rest
+    let ents ← (body.splitOn ";").mapM (fun t => match t.splitOn "/" with
+      | [dn, d] => do
+        let bd ← parseBDet dn
+        let dd ← parseDet2 d
+        let m ← dd.1
+        let r ← dd.2
+        pure (bd, m, r)
+      | _ => none)
+    if ents.map (·.1) == builtinDetectors o then pure (o, ents) else none
+  | _ => none
+
+def envOf (ae se : Bytes) (tbl : List (BDet × DetOut)) : Env :=
+  { attrs := ae, svc := se, builtin := fun d => ((tbl.find? (fun p => p.1 == d)).map (·.2)).getD ⟨none, none⟩ }
+
 /-- rest of a token after its first `:` -/
 def afterColon (s : String) : String := ":".intercalate ((s.splitOn ":").drop 1)
 
@@ -81,15 +145,16 @@ def parseOpt (s : String) : Option (Opt × Opt) :=
     | some "tsdk" => do
       let ra ← parseResArgs (afterColon s)
       pure (.withDetectors [some ⟨mkModel ra, none⟩], .withDetectors [some ⟨mkRef ra, none⟩])
+    | some "bi" => (parseBuiltin s).map (fun p => (.withBuiltin p.1, .withBuiltin p.1))
     | some "dets" => do
       let body := afterColon s
       let toks := if body = "" then [] else body.splitOn ";"
       let ds ← toks.mapM (fun t =>
-        if t = "nild" then parseDet t
+        if t = "nild" then parseDet2 t
         else match t.splitOn "/" with
-          | [_, d] => parseDet d
+          | [_, d] => parseDet2 d
           | _ => none)
-      pure (.withDetectors (ds.map (toDetOut mkModel)), .withDetectors (ds.map (toDetOut mkRef)))
+      pure (.withDetectors (ds.map (·.1)), .withDetectors (ds.map (·.2)))
     | _ => none
 
 /-- identity of the detectors on a `new` line (kind+id, `env`, `tsdk`), in option order -/
@@ -98,6 +163,7 @@ def detIds (optToks : List String) : List String :=
     if s = "env" then ["env"]
     else match (s.splitOn ":").head? with
       | some "tsdk" => ["tsdk"]
+      | some "bi" => (((parseBuiltin s).map (fun p => p.2.map (fun e => reprStr e.1))).getD [])
       | some "dets" => ((afterColon s).splitOn ";").filterMap (fun t => (t.splitOn "/").head?.filter (fun h => h != "nild" && h != ""))
       | _ => [])
 
@@ -168,21 +234,53 @@ def stepLine (_ : Unit) (toks : List String) : Unit × Option Verdict :=
       (svc && (Spec.envPairs ae).1.any (fun kv => kv.key == serviceNameKey), "svc-override")]
     pure { agree := m.1 == ⟨okvs, osch⟩ && m.2.1 == eo && m.2.2 == h, spec := okFail spec,
            nontrivial := !(trimSpace ae).isEmpty, branches := br, model := s!"{showRes m.1} {showErr m.2.1} {m.2.2}" }
-  | "detect" :: _ :: iS :: dS, [rS, eS] => do
-    let init ← parseHex iS
-    let ds ← dS.mapM parseDet
+  | ["envrt", _, psS, sS], [rS, eS, hS] => do
+    let ps ← (if psS = "-" then some [] else (psS.splitOn ";").mapM (fun t => match t.splitOn "=" with
+      | [k, v] => do
+        let kb ← parseBytes k
+        let vb ← parseBytes v
+        pure (kb, vb)
+      | _ => none))
+    let env ← parseHex sS
     let ro ← parseResArgs rS
     let (okvs, osch) ← ro
     let eo ← parseErr eS
-    let mds : List (Option DetOut) := ds.map (fun d => d.map (fun p => ⟨mkModel p.2, p.1⟩))
-    let rds : List (Option DetOut) := ds.map (fun d => d.map (fun p => ⟨mkRef p.2, p.1⟩))
+    let h ← hS.toNat?
+    -- the harness' serialiser is the Spec's
+    if env != Spec.renderEnv ps then none
+    let m := fromEnv env []
+    let allOK := ps.all (fun p => Spec.keyOK p.1)
+    -- env_roundtrip_iff / env_roundtrip_general evaluated on the implementation's result
+    let spec :=
+      if allOK then okvs == Spec.contents (ps.map (fun p => ⟨p.1, .str p.2⟩)) && osch.isEmpty && eo.isNone && h == 0
+      else okvs == (Spec.envRef env []).1 && osch.isEmpty
+    -- env_keys_wellformed on the implementation's result: whatever came back has well-formed keys
+    let spec := spec && okvs.all (fun kv => Spec.keyOK kv.key)
+    let br := tags [(allOK, "keys-ok"), (!allOK, "key-not-ok"), (ps.isEmpty, "empty"),
+      (ps.any (fun p => p.1.isEmpty), "empty-key"), (ps.any (fun p => p.1.any (fun b => b.toNat ≥ 0x80)), "non-ascii-key"),
+      (ps.any (fun p => !Spec.keyOK p.1 && !p.1.contains 0x2C && !p.1.contains 0x3D), "key-trimmed"),
+      (ps.any (fun p => p.1.contains 0x2C || p.1.contains 0x3D), "key-with-separator")]
+    pure { agree := m.1 == ⟨okvs, osch⟩ && m.2.1 == eo && m.2.2 == h, spec := okFail spec,
+           nontrivial := !ps.isEmpty, branches := br, model := s!"{showRes m.1} {showErr m.2.1} {m.2.2}" }
+  | "detect" :: _ :: iS :: dS, [rS, eS] => do
+    let init ← parseHex iS
+    let ds ← dS.mapM parseDet2
+    let ro ← parseResArgs rS
+    let (okvs, osch) ← ro
+    let eo ← parseErr eS
+    let mds : List (Option DetOut) := ds.map (·.1)
+    let rds : List (Option DetOut) := ds.map (·.2)
     let m := detect init mds
     let ref := Spec.detectRef init rds
     let errOf (st : DetState) : Option Err := if st.anyErr then some ⟨st.partialSeen, st.conflictSeen⟩ else none
-    let spec := ref.res == ⟨okvs, osch⟩ && errOf ref == eo
-    let br := tags [(ds.any (·.isNone), "nildet"), (ds.any (fun d => d.any (fun p => p.2.isNone)), "nilres"),
-      (ds.any (fun d => d.any (fun p => p.1.any (fun e => !e.isPartial))), "fatal"),
-      (ds.any (fun d => d.any (fun p => p.1.any (fun e => e.isPartial))), "partial"),
+    -- the loop as a left fold of Merge (detect_is_merge_fold), evaluated on the reference operands
+    let fold := Spec.mergeFold (⟨[], init⟩, false) (rds.filterMap Spec.mergedArg)
+    let spec := ref.res == ⟨okvs, osch⟩ && errOf ref == eo && fold.1.attrs == okvs
+    let br := tags [(mds.any (·.isNone), "nildet"), (mds.any (fun d => d.any (fun p => p.res.isNone)), "nilres"),
+      (mds.any (fun d => d.any (fun p => p.err.any (fun e => !e.isPartial))), "fatal"),
+      (mds.any (fun d => d.any (fun p => p.err.any (fun e => e.isPartial))), "partial"),
+      (dS.any (fun t => t.startsWith "sd:"), "stringdetector"),
+      (mds.any (fun d => d.any (fun p => p.res.any (fun r => r.attrs.isEmpty && !r.schema.isEmpty))), "schema-only"),
       (m.conflictSeen, "conflict"), (m.anyErr, "err"), (!m.anyErr, "noerr")]
     pure { agree := m.res == ⟨okvs, osch⟩ && errOf m == eo, spec := okFail spec, nontrivial := ds.length ≥ 2,
            branches := br, model := s!"{showRes m.res} {showErr (errOf m)}" }
@@ -193,20 +291,86 @@ def stepLine (_ : Unit) (toks : List String) : Unit × Option Verdict :=
     let ro ← parseResArgs rS
     let (okvs, osch) ← ro
     let eo ← parseErr eS
-    let env : Env := ⟨ae, se⟩
-    let m := newResource env (opts.map (·.1))
-    let ref := Spec.newRef env (opts.map (·.2))
+    let bis := (optS.filterMap parseBuiltin).flatMap (·.2)
+    let m := newResource (envOf ae se (bis.map (fun e => (e.1, e.2.1)))) (opts.map (·.1))
+    let ref := Spec.newRef (envOf ae se (bis.map (fun e => (e.1, e.2.2)))) (opts.map (·.2))
     let errOf (st : DetState) : Option Err := if st.anyErr then some ⟨st.partialSeen, st.conflictSeen⟩ else none
     let spec := ref.res == ⟨okvs, osch⟩ && errOf ref == eo
     let ids := detIds optS
     let schemas := (optS.filter (fun t => t.startsWith "sch:")).length
     let br := tags [(ids.eraseDups.length != ids.length, "repeated-detector"), (optS.contains "env", "env"),
       (optS.any (fun t => t.startsWith "attrs:"), "attrs"), (optS.any (fun t => t.startsWith "tsdk:"), "tsdk"),
+      (optS.any (fun t => t.startsWith "bi:"), "builtin"),
+      ((optS.filterMap parseBuiltin).any (fun p => decide (p.2.length ≥ 2)), "builtin-composite"),
+      (optS.any (fun t => (t.splitOn "/sd:").length ≥ 2), "stringdetector"),
       (decide (schemas ≥ 1), "schema"), (decide (schemas ≥ 2), "schema-twice"), (m.conflictSeen, "conflict"),
       (m.anyErr, "err"), (!m.anyErr, "noerr"), (optS.isEmpty, "noopts")]
     pure { agree := m.res == ⟨okvs, osch⟩ && errOf m == eo, spec := okFail spec,
            nontrivial := decide (optS.length ≥ 2) || decide (ids.length ≥ 2),
            branches := br, model := s!"{showRes m.res} {showErr (errOf m)}" }
+  | ["default", _, a1S, s1S, a2S, s2S, svS, tsS], [r1S, h1S, r2S, h2S, sameS] => do
+    let a1 ← parseHex a1S
+    let s1 ← parseHex s1S
+    let a2 ← parseHex a2S
+    let s2 ← parseHex s2S
+    let sv ← parseDet2 svS
+    let ts ← parseDet2 tsS
+    let svM ← sv.1
+    let svR ← sv.2
+    let tsM ← ts.1
+    let tsR ← ts.2
+    let ro1 ← parseResArgs r1S
+    let (k1, sc1) ← ro1
+    let ro2 ← parseResArgs r2S
+    let (k2, sc2) ← ro2
+    let h1 ← h1S.toNat?
+    let h2 ← h2S.toNat?
+    let same ← b01 sameS
+    let tblM := [(BDet.defaultServiceName, svM), (BDet.telemetrySDK, tsM)]
+    let tblR := [(BDet.defaultServiceName, svR), (BDet.telemetrySDK, tsR)]
+    let e1M := envOf a1 s1 tblM
+    let e2M := envOf a2 s2 tblM
+    let e1R := envOf a1 s1 tblR
+    let e2R := envOf a2 s2 tblR
+    let c1 := defaultCall none e1M
+    let c2 := defaultCall c1.2.2 e2M
+    let o1 : Res := ⟨k1, sc1⟩
+    let o2 : Res := ⟨k2, sc2⟩
+    let ref := Spec.defaultRef e1R
+    let spec := Spec.defaultSeqOK [e1R, e2R] [o1, o2] && same &&
+      h1 == (fromEnv a1 s1).2.2 + (if ref.anyErr then 1 else 0) && h2 == 0
+    let br := tags [(ref.anyErr, "err"), (!ref.anyErr, "noerr"), (!(trimSpace s1).isEmpty, "svc"),
+      (a1 != a2 || s1 != s2, "env-changed"), ((Spec.detectRef [] [Spec.envDetRef e2R]).res != (Spec.detectRef [] [Spec.envDetRef e1R]).res, "env-differs"),
+      ((Spec.envPairs a1).1.any (fun kv => tsR.res.any (fun r => r.attrs.any (fun x => x.key == kv.key))), "env-vs-sdk")]
+    pure { agree := c1.1 == o1 && c2.1 == o2 && c1.2.1 == h1 && c2.2.1 == h2 && same, spec := okFail spec,
+           nontrivial := !(trimSpace a1).isEmpty || !(trimSpace s1).isEmpty, branches := br,
+           model := s!"{showRes c1.1} {c1.2.1} {showRes c2.1} {c2.2.1} 1" }
+  | ["racc", _, aS, bS], [atS, schS, lenS, itS, strS, encS, eqS, eqrS] => do
+    let parseR (t : String) : Option (Option (List KV × Bytes)) := if t = "empty" then some (some ([], [])) else parseResArgs t
+    let a ← parseR aS
+    let b ← parseR bS
+    let oat ← parseKVs atS
+    let osch ← parseHex schS
+    let olen ← lenS.toNat?
+    let oit ← itS.toNat?
+    let ostr ← parseHex strS
+    let oenc ← parseHex encS
+    let oeq ← b01 eqS
+    let oeqr ← b01 eqrS
+    let ma := mkModel a
+    let mb := mkModel b
+    let emitK : Value → Bytes := fun v => (emitKnown v).getD []
+    let agree := resAttributes ma == oat && resSchemaURL ma == osch && resLen ma == olen && resLen ma == oit &&
+      resString emitK ma == ostr && resString emitK ma == oenc && resEqual ma mb == oeq && resEqual mb ma == oeqr
+    let ra := (mkRef a).map (·.attrs) |>.getD []
+    let rb := (mkRef b).map (·.attrs) |>.getD []
+    let same := C05.Spec.sameMapping goEq ra rb
+    let spec := oat == ra && osch == ((a.map (·.2)).getD []) && olen == ra.length && oit == ra.length &&
+      ostr == C05.Spec.encodeRef emitK ra && oenc == ostr && oeq == same && oeqr == same
+    let br := tags [(a.isNone, "nil"), (aS == "empty", "Empty()"), (a.isSome && ra.isEmpty, "no-attrs"), (b.isNone, "other-nil"),
+      (oeq, "eq"), (!oeq, "neq")]
+    pure { agree, spec := okFail spec, nontrivial := a.isNone || ra.isEmpty, branches := br,
+           model := s!"{showKVs (resAttributes ma)} x{hexOf (resSchemaURL ma)} {resLen ma} {resLen ma} x{hexOf (resString emitK ma)} x{hexOf (resString emitK ma)} {show01 (resEqual ma mb)} {show01 (resEqual mb ma)}" }
   | ["requal", _, aS, bS], [eqS, fS] => do
     let a ← parseResArgs aS
     let b ← parseResArgs bS
